@@ -1,11 +1,12 @@
 #!/usr/bin/env python3
-"""Confirms and evaluates the round-2 seeded changes delivered under /tmp/seed2/<Cnn>/out/m3|m4."""
+"""Confirms and evaluates the seeded changes delivered under $SEED_ROOT/<Cnn>/out/m<k> (default /tmp/seed2)."""
 import os, re, subprocess, sys, glob
 ROOT = os.path.dirname(os.path.abspath(__file__))
 PKG = {"server": "server", "caching": "caching", "proxy": "proxy", "util": "util", "main": "cmd/richie-request-router", "config": "config"}
 EXTRA = {"C05": ["C06", "C07", "C09"], "C07": ["C05", "C09", "C15"], "C09": ["C05", "C07"], "C10": ["C08"], "C11": ["C18"], "C12": ["C13", "C07"], "C13": ["C12"], "C16": ["C17"], "C17": ["C16"], "C14": ["C13"]}
 only = sys.argv[1:]
-for d in sorted(glob.glob("/tmp/seed2/C*/out/m*")):
+SROOT = os.environ.get("SEED_ROOT", "/tmp/seed2")
+for d in sorted(glob.glob(SROOT + "/C*/out/m*")):
     prop = d.split("/")[3]; mk = os.path.basename(d)
     if only and (prop + "-" + mk) not in only:
         continue
@@ -20,6 +21,6 @@ for d in sorted(glob.glob("/tmp/seed2/C*/out/m*")):
     cmd = "go test -vet=off -count=1 %s-run '%s' ./%s/" % (("-tags %s " % tags.group(1)) if tags else "", "|".join(names), PKG.get(pkg, pkg))
     props = [prop] + EXTRA.get(prop, [])
     p = subprocess.run([os.path.join(ROOT, "seed_eval.py"), prop, mk, "--demo-src", tests[0], "--demo-dst", dst, "--demo-cmd", cmd, "--props", ",".join(props), "--wt"],
-                       cwd=ROOT, env=dict(os.environ, SEED_ROOT="/tmp/seed2"), stdout=subprocess.PIPE, stderr=subprocess.STDOUT, text=True)
+                       cwd=ROOT, env=dict(os.environ, SEED_ROOT=SROOT), stdout=subprocess.PIPE, stderr=subprocess.STDOUT, text=True)
     tail = [l for l in p.stdout.split("\n") if l.startswith("confirm:") or l.startswith("stored") or "Error" in l or "assert" in l.lower()]
     print(prop, mk, " | ".join(tail), flush=True)
